@@ -77,6 +77,8 @@ ASSUMPTIONS = [
     "model side: geometry and goal decisions are parameters of the model operations (evaluated on a third, untouched copy of the "
     "scenario); every public attribute that no modelled operation looks into enters the model state as one content token "
     "(CR.Frame.Extra), so the frame theorem speaks about it but cannot see inside it",
+    "a route-merging query that fails the connectivity assertion of Lanelet.merge_lanelets (two lanelets that are successors of each other: "
+    "which one comes first is ambiguous) is a generic read for the model (bucket merge:raises:assert:on-cycle); the oracle judges it as any other",
     "the frame theorem C18_obs_frame is about the finite list of modelled operation kinds (28 step cases incl. the generic `reads`), "
     "not about every conceivable read-only call of the library; for `reads` the proof covers any list of filled caches, the absence "
     "of other side effects of those calls is decided by the oracle",
@@ -90,7 +92,11 @@ REQUIRED_BUCKETS = ["traj:ks-unc-offcentre-queried", "problem-init:acceleration-
                     "traj:custom-vvy", "traj:pm", "traj:ks", "pred:set", "shape:group",
                     "tbl:defaultdict-missing", "tbl:dict-missing", "tbl:none", "export:xml-ok", "export:pb-ok", "merge:ids-to-merge",
                     "op:lanelet_q", "op:net_copy", "op:goal_reached", "op:find_shape", "op:states_at", "op:by_interval", "op:map_obstacles",
-                    "lanelet_q:dyn_by_time", "lanelet_q:obstacles", "lanelet_q:merge_succ"]
+                    "lanelet_q:dyn_by_time", "lanelet_q:obstacles", "lanelet_q:merge_succ",
+                    # round 7 (seeds C18_14 / C18_15): cyclic successor / predecessor graphs with both merge queries run round the cycle;
+                    # a scenario id of the older format version, exported
+                    "net:cycle", "merge:route-closes-cycle:merge_succ", "merge:route-closes-cycle:merge_pred",
+                    "scenario-version:2018b", "scenario-version:default"]
 WORKERS = {"quick": 1, "thorough": 8}
 # translator tie: Gen.SrcC18 (the write sets of the read-only operations, regenerated from the working tree of commonroad-io on every
 # run by harness/translate/src_c18.py) is checked completely against the cache / own-state tables of CRModel/PyExtC18.lean
@@ -172,10 +178,54 @@ def gen_traj_states(r, cls, t1, n):
     return out
 
 
+def _reach(lanelets, key="succ"):
+    """id -> set of ids reachable through >= 1 successor (predecessor) reference"""
+    by_id = {l["id"]: l for l in lanelets}
+    out = {}
+    for l in lanelets:
+        seen, todo = set(), [x for x in l[key] if x in by_id]
+        while todo:
+            x = todo.pop()
+            if x not in seen:
+                seen.add(x)
+                todo.extend(y for y in by_id[x][key] if y in by_id)
+        out[l["id"]] = seen
+    return out
+
+
+def gen_back_edges(r, lanelets, n=None):
+    """close 1..2 CYCLES in the successor / predecessor graph (ring, roundabout, a route that comes back to one of its own
+    lanelets): lanelet a gets b as a successor and b gets a as a predecessor, for a reachable from b.  Topology only - the library
+    does not tie the references to the geometry.  -> [[a, b], ...] (the lanelet dicts are edited in place)"""
+    edges = []
+    for _ in range(n or r.choice([1, 1, 2])):
+        reach = _reach(lanelets)
+        pairs = [(a, b["id"]) for b in lanelets for a in sorted(reach[b["id"]]) if a != b["id"]]
+        by_id = {l["id"]: l for l in lanelets}
+        pairs = [(a, b) for a, b in pairs if b not in by_id[a]["succ"]]
+        if not pairs:
+            break
+        a, b = r.choice(pairs)
+        # the new reference goes first, last, or in between: the lists need not be sorted
+        by_id[a]["succ"].insert(r.randint(0, len(by_id[a]["succ"])), b)
+        by_id[b]["pred"].insert(r.randint(0, len(by_id[b]["pred"])), a)
+        edges.append([a, b])
+    return edges
+
+
+def on_cycle(lanelets):
+    """ids of the lanelets that lie on a cycle of successor references"""
+    reach = _reach(lanelets)
+    return sorted(i for i, s in reach.items() if i in s)
+
+
 def gen_spec(r, tiny=False):
     spec = {"dt": r.choice([0.1, 0.1, 0.04, 0.5]), "tags": sorted(r.sample(["URBAN", "HIGHWAY", "INTERSECTION", "SIMULATED"], r.randint(1, 2))),
             "location": r.random() < 0.5, "scenario_id": r.choice([None, ["ZAM", "Frame", 3, 2, "T", 1], ["DEU", "A9", 1, None, None, None],
-                                                                   ["USA", "Lanker", 2, 1, "S", 3, True]])}
+                                                                   ["USA", "Lanker", 2, 1, "S", 3, True]]),
+            # ScenarioID.scenario_version: the current format, or the older supported one (what the XML reader hands out for every
+            # 2018b file); None = the constructor default.  Every export writes the CURRENT format whatever the id says.
+            "scenario_version": r.choice([None, None, "2018b", "2018b", "2020a"])}
     if spec["location"]:
         # Location / GeoTransformation / Environment / Time arguments: given or left out, several values
         spec["location"] = {"geo_name_id": r.choice([2867714, -999, 0]), "lat": r.choice([48.25, 999.0, -33.5]), "lon": r.choice([11.5, 999.0]),
@@ -202,6 +252,7 @@ def gen_spec(r, tiny=False):
                   "stop_line": r.random() < 0.25, "stop_refs": r.choice(["none", "empty", "given"])}
             lanelets.append(ll)
     spec["lanelets"] = lanelets
+    spec["back_edges"] = gen_back_edges(r, lanelets) if r.random() < 0.4 else []
     lids = [l["id"] for l in lanelets]
     spec["signs"] = []
     spec["lights"] = []
@@ -500,9 +551,16 @@ def gen_ops(r, spec, n=None, allow_draw=True):
                 ops.append(["signal", r.choice(c), some_t()])
         elif k == "lanelet_q":
             if lids:
-                ops.append(["lanelet_q", r.choice(lids), r.choice(["contains", "interpolate", "orientation", "obstacles", "succ_range",
-                                                                    "merge_succ", "merge_succ", "merge_pred", "pred_range", "dyn_by_time",
-                                                                    "dyn_by_time", "dyn_by_time", "obstacles", "polygon", "distance"]), pts()])
+                q = r.choice(["contains", "interpolate", "orientation", "obstacles", "succ_range",
+                              "merge_succ", "merge_succ", "merge_pred", "pred_range", "dyn_by_time",
+                              "dyn_by_time", "dyn_by_time", "obstacles", "polygon", "distance"])
+                cyc = on_cycle(spec["lanelets"])
+                if cyc and r.random() < 0.5:
+                    ops.append(gen_merge_op(r, r.choice(cyc), r.choice(["merge_succ", "merge_pred"])))
+                elif q in ("merge_succ", "merge_pred"):
+                    ops.append(gen_merge_op(r, r.choice(lids), q))
+                else:
+                    ops.append(["lanelet_q", r.choice(lids), q, pts()])
         elif k in ("dyn_by_time", "get_obstacles"):
             if lids:
                 ops.append(["lanelet_q", r.choice(lids), "dyn_by_time" if k == "dyn_by_time" else "obstacles", pts()])
@@ -520,6 +578,11 @@ def gen_ops(r, spec, n=None, allow_draw=True):
     if not ops:
         ops.append(["occs", 0, None])
     return ops
+
+
+def gen_merge_op(r, lid, q):
+    """one of the two route-merging queries; op[4] = max_length (how far the routes run; absent in older cases = 60)"""
+    return ["lanelet_q", lid, q, [[1.0625, 1.0625]], r.choice([60.0, 60.0, 45.0, 150.0, 25.0])]
 
 
 NEW_KINDS = ("net_find", "pred_q", "state_q", "pps_find", "cycle_q", "shape_q", "interval_q", "sign_interp", "viz_util", "read_back", "write_x",
@@ -659,6 +722,34 @@ def gen_case(ctx, tiny=False, allow_draw=True, recipe=None):
             ops.insert(r.randint(0, len(ops)), ["lanelet_q", l["id"] if q == "merge_succ" else l["succ"][0], q, [[1.0625, 1.0625]]])
             ops.insert(r.randint(0, len(ops)), ["map_obstacles", "map", "static"])
             ops.insert(r.randint(0, len(ops)), ["lanelet_q", where, "dyn_by_time", [[r.randint(0, 80) / 16.0, 1.0]]])
+            return {"spec": spec, "ops": ops}
+        if recipe == "ring":
+            # a network with a cycle of successor references (ring / roundabout / a route that returns to one of its own lanelets) and
+            # both route-merging queries started ON the cycle, far enough to come round
+            if len(spec["lanelets"]) < 2:
+                continue
+            if not on_cycle(spec["lanelets"]):
+                spec["back_edges"] = spec.get("back_edges", []) + gen_back_edges(r, spec["lanelets"], 1)
+            cyc = on_cycle(spec["lanelets"])
+            if not cyc:
+                continue
+            ops = gen_ops(r, spec, allow_draw=allow_draw)
+            for q in r.sample(["merge_succ", "merge_pred", r.choice(["merge_succ", "merge_pred"])], r.randint(2, 3)):
+                op = gen_merge_op(r, r.choice(cyc), q)
+                op[4] = r.choice([60.0, 150.0, 150.0])
+                ops.insert(r.randint(0, len(ops)), op)
+            return {"spec": spec, "ops": ops}
+        if recipe == "version":
+            # a scenario id that names the OLDER supported format version (what reading a 2018b file yields), exported (always in the
+            # current format) through both writers and every entry point, with observers of the id in between
+            spec["scenario_version"] = "2018b"
+            ops = gen_ops(r, spec, allow_draw=allow_draw)
+            extra = [["write_xml", r.choice(["full", "scenario"])], ["write_pb", r.choice(["full", "scenario"])],
+                     ["write_x", {"fmt": "xml", "direct": r.random() < 0.5, "precision": 4, "check": False, "args": r.random() < 0.5,
+                                  "location": False, "seq": r.choice([["full"], ["scenario"], ["full", "scenario"]])}],
+                     ["eq", "scenario"], ["hash", "scenario"], ["scenario_id_q"], ["read_back", r.choice(["xml", "pb"]), "open"]]
+            for op in r.sample(extra, r.randint(3, len(extra))):
+                ops.insert(r.randint(0, len(ops)), op)
             return {"spec": spec, "ops": ops}
         if recipe == "vvy":
             d = [d for d in spec["dynamic"] if d["pred"] and d["pred"]["kind"] == "traj" and d["pred"]["cls"] == "custom-vvy"]
@@ -827,11 +918,12 @@ def build(spec):
     from commonroad.scenario.trajectory import Trajectory
 
     sid = spec.get("scenario_id")
+    ver = {"scenario_version": spec["scenario_version"]} if spec.get("scenario_version") else {}
     if sid is None:
-        scenario_id = ScenarioID()
+        scenario_id = ScenarioID(**ver)
     else:
         scenario_id = ScenarioID(cooperative=bool(sid[6]) if len(sid) > 6 else False, country_id=sid[0], map_name=sid[1], map_id=sid[2],
-                                 configuration_id=sid[3], obstacle_behavior=sid[4], prediction_id=sid[5])
+                                 configuration_id=sid[3], obstacle_behavior=sid[4], prediction_id=sid[5], **ver)
     loc = None
     lspec = spec.get("location")
     if lspec is True:        # cases stored before the location arguments were varied
@@ -1280,7 +1372,7 @@ def run_op(ctx, sc, pps, op, twin):
             return l.find_lanelet_successors_in_range(net, 45.0)
         if q == "merge_succ":
             from commonroad.scenario.lanelet import Lanelet
-            ls, ids = Lanelet.all_lanelets_by_merging_successors_from_lanelet(l, net, 60.0)
+            ls, ids = Lanelet.all_lanelets_by_merging_successors_from_lanelet(l, net, op[4] if len(op) > 4 else 60.0)
             return [ids, [_regs(m) for m in ls]]
         if q == "merge_direct":
             from commonroad.scenario.lanelet import Lanelet
@@ -1290,7 +1382,7 @@ def run_op(ctx, sc, pps, op, twin):
             return [[[first.lanelet_id, (l if op[3][0][1] else other).lanelet_id]], [_regs(m)]]
         if q == "merge_pred":
             from commonroad.scenario.lanelet import Lanelet
-            ls, ids = Lanelet.all_lanelets_by_merging_predecessors_from_lanelet(l, net, 60.0)
+            ls, ids = Lanelet.all_lanelets_by_merging_predecessors_from_lanelet(l, net, op[4] if len(op) > 4 else 60.0)
             return [ids, [_regs(m) for m in ls]]
         if q == "pred_range":
             return l.find_lanelet_predecessors_in_range(net, 45.0)
@@ -2051,6 +2143,12 @@ def model_op(op, P, spy, env):
         return ["dynByTime", op[1], int(op[3][0][0] * 16) % 5], "sorted"
     if k == "lanelet_q" and op[2] in ("merge_succ", "merge_pred"):
         ans = _LAST.get("answer")
+        if ans is None and _LAST.get("err") == "assert":
+            # Lanelet.merge_lanelets asserts that its two arguments are connected.  On a cycle of two lanelets (a <-> b) it cannot tell
+            # which one comes first, the merged lanelet gets the reference lists of the wrong ends and the NEXT merge of the route fails
+            # that assertion.  The model takes the routes as parameters and has no answer to take them from: the raising query is a
+            # generic read for the model (state view compared strictly as ever, answer not compared); the oracle judges it as any other.
+            return ["reads", spy.occ, spy.light], "skip"
         paths = [p[1:] for p in ans[0]] if ans else []          # the routes depend on lanelet lengths: taken from the answer
         return ["mergeFrom", op[1], paths], "regs"
     if k == "lanelet_q" and op[2] == "merge_direct":
@@ -2234,6 +2332,8 @@ def run_case(ctx, case, with_model=True, old_pb=False):
             ctx.tag("lanelet_q:" + op[2])
             if op[2] in ("merge_succ", "merge_pred") and _merge_moves_ids(spec, op[1], op[2]):
                 ctx.tag("merge:ids-to-merge")
+            if op[2] in ("merge_succ", "merge_pred") and op[1] in on_cycle(spec["lanelets"]):
+                ctx.tag("merge:from-cycle:" + op[2])
         _LAST.clear()
         with warnings.catch_warnings(), Spy(sc) as spy:
             warnings.simplefilter("ignore")
@@ -2249,6 +2349,11 @@ def run_case(ctx, case, with_model=True, old_pb=False):
             if "scenario" in op[1]["seq"][1:]:
                 ctx.tag(f"write_x:reused-scenario:{op[1]['fmt']}")
         _LAST["answer"] = res[1] if res[0] == "ok" else None
+        _LAST["err"] = res[1] if res[0] == "err" else None
+        if op[0] == "lanelet_q" and op[2] in ("merge_succ", "merge_pred") and res[0] == "err":
+            ctx.tag(f"merge:raises:{res[1]}:" + ("on-cycle" if on_cycle(spec["lanelets"]) else "acyclic"))
+        if op[0] == "lanelet_q" and op[2] in ("merge_succ", "merge_pred") and res[0] == "ok" and _route_closes_cycle(spec, res[1][0]):
+            ctx.tag("merge:route-closes-cycle:" + op[2])
         mop, mode = model_op(op, P, spy, env)
         ans = res
         if res[0] == "ok":
@@ -2369,6 +2474,19 @@ def probes(spec, sc, pps):
     return out
 
 
+def _route_closes_cycle(spec, routes):
+    """is there a merged route one of whose END lanelets refers (successor / predecessor) to a lanelet of the route itself?  The
+    merged lanelet is handed the reference lists of its end lanelets; only then do those lists name a part of the merged lanelet."""
+    by_id = {l["id"]: l for l in spec["lanelets"]}
+    for route in routes:
+        if len(route) < 2 or any(i not in by_id for i in route):
+            continue
+        for end in (route[0], route[-1]):
+            if (set(by_id[end]["succ"]) | set(by_id[end]["pred"])) & set(route):
+                return True
+    return False
+
+
 def _merge_moves_ids(spec, lid, q):
     """does merging lanelet `lid` with its successors/predecessors bring together lanelets one of which has obstacle ids the
     other one lacks?  (only then a merge that writes into its inputs is visible)"""
@@ -2422,6 +2540,11 @@ def _tag_spec(ctx, spec):
             ctx.tag("shape:group")
     if not spec["lanelets"]:
         ctx.tag("net:empty")
+    cyc = on_cycle(spec["lanelets"])
+    if cyc:
+        ctx.tag("net:cycle")
+        ctx.tag("net:cycle:len-%d" % min(len(cyc), 4))
+    ctx.tag("scenario-version:" + (spec.get("scenario_version") or "default"))
     for p in spec["problems"]:
         t = p["tbl"]
         if t is None:
@@ -2445,7 +2568,7 @@ def run(ctx):
         run_case(ctx, json.load(open(p)))
     n = ctx.n(110)
     for i in range(n):
-        recipe = {1: "merge", 3: "sign", 6: "vvy", 8: "sign", 11: "tbl", 13: "reach", 16: "merge", 18: "reach"}.get(i % 20)
+        recipe = {1: "merge", 3: "sign", 6: "vvy", 8: "sign", 11: "tbl", 13: "reach", 16: "merge", 18: "reach", 7: "ring", 12: "version", 17: "ring"}.get(i % 20)
         if i % 20 in (9, 19):
             recipe = "unc"
         if i % 10 == 4:
@@ -2461,7 +2584,14 @@ def run(ctx):
         run_case(ctx, case)
 
 
-search = run
+def search(ctx):
+    """failing-input search: the dimensions added last come first (cycles + merge queries, the older format version + exports),
+    then the ordinary mix"""
+    import logging
+    logging.disable(logging.CRITICAL)
+    for i in range(12):
+        run_case(ctx, gen_case(ctx, allow_draw=False, recipe=("ring", "version", "merge")[i % 3]))
+    run(ctx)
 
 
 def replay(ctx, case):
